@@ -28,13 +28,15 @@ NOT_DECIDED = {
            'GPy itself, hyper-parameter dependence',
     'C11': 'the numerical gradient of ExpIntVar (only its being taken of the class\'s own '
            'evaluate is decided), optimiser end points, schedule independence of the fit',
-    'C12': 'numeric equality with scipy metrics, the algebra of the batched Welford recurrence',
+    'C12': 'numeric equality with scipy metrics for run-time arrays, floating-point error of the '
+           'moment recurrence (its exactness over the reals is decided by induction)',
     'C13': 'monotonicity in alpha and rescale invariance of the quantile for all inputs '
            '(arithmetic on run-time values)',
     'C14': 'equality of seeded outputs between original, copy and re-loaded model',
     'C15': 'distinctness of sub-seeds for all seeds (a loop-invariant argument about a PRNG '
            'stream) - only its necessary scaffolding is decided',
-    'C16': 'ESS and split-R-hat formulas and invariances, JSON/CSV round-trip equality of values',
+    'C16': 'invariances of ESS / split R-hat for all inputs, the FFT autocovariance, JSON/CSV '
+           'round-trip equality of values',
     'C17': 'least-squares optimality, affine invariance, numeric values',
     'C18': 'dtype handling, stdout parsing, subprocess behaviour',
     'C19': 'density integrates to one, orthonormality, numerical containment under rounding',
@@ -71,14 +73,18 @@ TECHNIQUE = {
            'evaluate_gradient, syntax-directed symbolic differentiation (exp, log, sqrt, normal '
            'cdf, Owen T) with exact normal forms for the closed-form acquisition gradients',
     'C12': 'static dataflow of distance arguments, append-only history ownership, unit '
-           'typestate of the adaptive scale, def-use ordering of the Welford update',
-    'C13': 'static comparison-role, uniform-permutation and lock-step counter analysis',
+           'typestate of the adaptive scale, def-use ordering of the Welford update, abstract '
+           'interpretation of the straight-line update over sample-sum normal forms (inductive '
+           'invariant of the batched moment recurrence, decided exactly)',
+    'C13': 'static comparison-role, uniform-permutation and lock-step counter analysis; exact '
+           'normal forms over sample sums for the variance / ESS formulas (no evaluation)',
     'C14': 'static ownership-after-copy analysis, snapshot-before-mutation ordering, guard '
            'dominance for the acyclicity check',
     'C15': 'static guard dominance, generator provenance, loop bookkeeping in linear form, '
            'call-site argument order',
     'C16': 'static column-order dataflow, uniform weight argument, slice/axis forms, '
-           'getstate/setstate tuple agreement',
+           'getstate/setstate tuple agreement, exact normal forms of the R-hat / ESS formulas '
+           'over the chain statistics',
     'C17': 'static mask-index uniformity, opposite polarity of regressor operands, comparison '
            'roles of the partition',
     'C18': 'static uniform-index analysis of the batch loop, copy-before-mutate, call ordering '
